@@ -132,7 +132,8 @@ def npci_rt(d, dk, sk, mk, dlens, slens, paylens):
 
 
 def check_fields(y, er, prio, dshape, sshape, hops, msg, vendor, payload, kind, skip_dadr=False):
-    """the decoded NPDU `y` carries exactly these header fields and this payload"""
+    """the decoded NPDU `y` carries exactly these header fields and this payload
+    (payload None: not looked at)"""
     if y.npduVersion != 1:
         raise Violation(kind, attr='npduVersion', got=y.npduVersion)
     if bool(y.pduExpectingReply) != bool(er):
@@ -156,7 +157,7 @@ def check_fields(y, er, prio, dshape, sshape, hops, msg, vendor, payload, kind, 
             raise Violation(kind, attr='npduNetMessage', got=y.npduNetMessage, want=msg)
         if vendor is not None and msg >= 0x80 and (y.npduVendorID is None or y.npduVendorID != vendor):
             raise Violation(kind, attr='npduVendorID', got=y.npduVendorID, want=vendor)
-    if bytes(y.pduData) != bytes(payload):
+    if payload is not None and bytes(y.pduData) != bytes(payload):
         raise Violation(kind, attr='pduData', got=bytes(y.pduData), want=bytes(payload))
 
 
@@ -505,7 +506,7 @@ def netmsg_rt(d, mt, lists, nents, infolens):
     if bad is not None:
         raise Violation("msg-param-restored", mt=mt, attr=bad)
     # the header of the frame stays attached to the decoded message
-    check_fields(z, er, prio, dshape, sshape, hops, mt, None, b'', "msg-header-restored")
+    check_fields(z, er, prio, dshape, sshape, hops, mt, None, None, "msg-header-restored")
     d.reach()
 
 
@@ -548,14 +549,16 @@ def instances(tier):
             for mk in ('apdu', 'std', 'vendor'):
                 both = dk == 'station' and sk == 'station'
                 if q:
-                    parts = [[2]]
+                    parts = [([2], [2])]
                 elif both:
-                    parts = [[1], [2], [6]]     # destination length; the source runs over all three
+                    # one process per destination length; the source is 2 or 6 octets long
+                    # (a 1-octet source runs with the other destination kinds)
+                    parts = [([n], [2, 6]) for n in (1, 2, 6)]
                 else:
-                    parts = [[1, 2, 6]]
-                for dl in parts:
+                    parts = [([1, 2, 6], [1, 2, 6])]
+                for dl, sl in parts:
                     label = "%s,%s,%s" % (dk, sk, mk) + (",dlen=%d" % dl[0] if len(parts) > 1 else "")
-                    out.append(Inst(npci_mutated, dict(dk=dk, sk=sk, mk=mk, dlens=dl, slens=[2] if q else [1, 2, 6],
+                    out.append(Inst(npci_mutated, dict(dk=dk, sk=sk, mk=mk, dlens=dl, slens=sl,
                                                        ctl='flip' if q else 'any'),
                                     budget=90 if q else 900, label=label))
     # --- netmsg_rt
